@@ -63,7 +63,7 @@ def slices(tier):
     )
     # B: labels x policy on a line of positions
     sl["B_labels"] = (
-        dict(MaxE="2", MaxG="2", PX="2" if big else "1", PY="0", ELabels=EL if big else S(q("car"), q("unknown")), GLabels=GL, Frames="{0}", PolicySet=POL,
+        dict(MaxE="2", MaxG="2", PX="2", PY="0", ELabels=EL if big else S(q("car"), q("unknown")), GLabels=GL if big else S(q("car"), q("pedestrian"), q("false_positive")), Frames="{0}", PolicySet=POL,
              TargetSets=S(T2, T3), RadiusSets="{<<>>, <<<<3,2>>, <<5,2>>>>, <<<<3,2>>, <<1,2>>, <<5,2>>>>}", ModeSet=S(q("center")),
              FpvalSet="{FALSE}", Sample="0"),
         ("3d",),
